@@ -6,6 +6,43 @@ import os
 V = os.path.dirname(os.path.dirname(os.path.abspath(__file__)))
 TLC = "TLA+ spec + TLC"
 CHECKS = {
+    "C01": dict(
+        text="ECDSA.tla (FIPS 186-4 sign/verify over the textbook group law of Curve.tla) is model-checked on toy curves "
+             "(SignVerifies, LowSEquiv for every d, k, e). The real library is then driven on the same toy curves through its "
+             "public API: T23 with every d, k in [1, n-1] x digests of 1..9 bytes x allow_truncate x 6 encoders x sign/sign_digest/"
+             "deterministic entry points x ~20 key reload paths; TLC trace validation requires every verify outcome True and the "
+             "signature integers to be the specification's. 17 production curves: boundary d, k, digests, hash widths 4..100 bytes, "
+             "entropy and RFC 6979 nonces, all encoders and reload paths (outcome True).",
+        note="Trusted: TLC, CPython, hashlib. Production-curve coverage is structured sampling; exhaustive claims are for toy curves "
+             "which run the same library code.",
+        technique="TLC model checking of ECDSA.tla on toy curves + TLC trace validation (C->S) of exhaustive toy-curve sign/verify experiments",
+        ref="3/C01"),
+    "C02": dict(
+        text="Verify(Q,e,r,s) in ECDSA.tla is the FIPS 186-4 rule. For toy curves with a 1-byte order EVERY 2-byte raw signature "
+             "(all 65536 (r,s)) is offered to verify_digest per (key, digest); TLC computes the accepted set from the rule and "
+             "requires equality and no outcome other than True/BadSignatureError (BadDigestError where documented); byte-level "
+             "mutations and all short strings go through the three decoders and are decided from SigCodec.tla + Verify. "
+             "Production curves: algebraically constructed classes (low-S twin, 0, n, +n, R at infinity via r=-e/d, other key/message) "
+             "with range clauses recomputed by TLC on bytes.",
+        note="Trusted: TLC, CPython to construct inputs. On production curves acceptance is decided by class, not recomputed.",
+        technique="TLC model checking + TLC trace validation (C->S) of exhaustive (r,s) grids on toy curves",
+        ref="3/C02"),
+    "C03": dict(
+        text="TLC recomputes r = x(kG) mod n, s = k^-1(e + r d), e = leftmost-bits(digest), dG, RSZeroError and BadDigestError "
+             "conditions from ECDSA.tla for every recorded (d, k, digest, allow_truncate) experiment on toy curves (T23/T43 all d,k; "
+             "9-bit orders T263/T251 for the non-byte-aligned truncation class), through sign_digest x 6 encoders, sign(), "
+             "sign_number and the deterministic entry points.",
+        note="Trusted: TLC, CPython. Production-size r cannot be recomputed by TLC; the truncation/s-equation logic is size-independent "
+             "code exercised exhaustively at toy size.",
+        technique="TLC model checking of ECDSA.tla + TLC trace validation (C->S)",
+        ref="3/C03"),
+    "C14": dict(
+        text="Recover(r,s,e) is defined in ECDSA.tla by search over the curve; TLC checks RecoverSoundComplete on the model and "
+             "validates every recorded recovery on toy cofactor-1 curves (all d, k on T23) against it: signer's key present, <= 2 keys, "
+             "each verifies and is recoverable by definition. Production curves: structured cases incl. the digest with 2e + r d = 0.",
+        note="Trusted: TLC, CPython. Precondition x(kG) < n and cofactor 1 as in the property.",
+        technique="TLC model checking + TLC trace validation (C->S)",
+        ref="3/C14"),
     "C11": dict(
         text="DER.tla gives X.690 canonical encoders and decoders *defined from them* (accept iff re-encoding the value reproduces the "
              "consumed bytes, remainder = unconsumed suffix, declared length <= bytes present) plus a design layer transcribing "
